@@ -1,10 +1,17 @@
-\* C15 trace evaluation at the real widths, design = aswritten
+\* C15 trace evaluation at the real widths, design = the code as written NOW: the column packer and the line-table
+\* policy were repaired in /repo (findings colovf, collide: fixed), the EOF-in-#if position and the heading of a line
+\* that cannot be read are still as written (open findings)
 CONSTANTS
   CNO = 14
   LNO = 48
-  Packer = "aswritten"
-  Policy = "aswritten"
+  Packer = "required"
+  Policy = "required"
   EofPolicy = "aswritten"
+  HeadPolicy = "aswritten"
+  Grouping = "gline"
+  SrcLen = 0
+  ColSeq <- ColSeqTwo
+  MaxSel = 0
   FileNames = {}
   TopFile = ""
   LineNames = {}
